@@ -12,12 +12,12 @@ EXPLANATION = (
     "fast_float2 f64. R02.7: members are inserted with BTreeMap::insert (last duplicate wins). R02.8: panic inventory of the parse_value cone (cursor "
     "slices are reviewed assumptions, everything else discharged). R02.9: recursion on nesting (known finding). R02.10: surrogate halves ranges and the "
     "pairing formula. R02.11: each of the 24 accepting paths of the number lexer, as a sequence of cursor tests, matches "
-    "-?(0|[1-9][0-9]*)(\\.[0-9]+)?([eE][+-]?[0-9]+)? with non-empty digit runs. R02.15: the string scanner fails only at end of input, inside an escape or after the closing quote, never on the value of a plain content byte. NOT decided: acceptance of every RFC document / rejection of everything "
+    "-?(0|[1-9][0-9]*)(\\.[0-9]+)?([eE][+-]?[0-9]+)? with non-empty digit runs. R02.15: the string scanner fails only at end of input, inside an escape or after the closing quote, never on the value of a plain content byte. R02.16: each \\u escape decides its own bracket form from the byte at its own position (mixed-form surrogate pairs). NOT decided: acceptance of every RFC document / rejection of everything "
     "else beyond these clauses, comma/colon bookkeeping, meaning of accepted strings.")
 
 
 def check(ctx, run):
-    run.rules_run = ['R02.1', 'R02.2', 'R02.3', 'R02.4', 'R02.5', 'R02.6', 'R02.7', 'R02.8', 'R02.9', 'R02.10', 'R02.11', 'R02.12', 'R02.13', 'R02.14', 'R02.15']
+    run.rules_run = ['R02.1', 'R02.2', 'R02.3', 'R02.4', 'R02.5', 'R02.6', 'R02.7', 'R02.8', 'R02.9', 'R02.10', 'R02.11', 'R02.12', 'R02.13', 'R02.14', 'R02.15', 'R02.16']
     textparser.r02_1(ctx, run)
     textparser.r02_2(ctx, run)
     textparser.r02_3(ctx, run)
@@ -33,6 +33,7 @@ def check(ctx, run):
                            'the parser', 'ill-formed input is silently repaired (U+FFFD substituted) instead of being rejected with an error',
                            only=lambda p_: p_.startswith(('util::', 'parser::', 'jsonpath::parser::', 'keypath::')))
     textparser.r02_13(ctx, run, rule='R02.15')
+    textparser.r02_16(ctx, run)
     import boundaries
     _bf = lambda p_: p_.startswith(('parser::', 'util::'))
     boundaries.check(ctx, run, 'R02.14', [p_ for p_ in sorted(boundaries.load_baseline() or {}) if _bf(p_)], 'the JSON text parser rejects input')
